@@ -2,6 +2,7 @@
 family), so every regex of the real extractors and parsers runs natively on it; the *reference datetime* is symbolic
 (symx + lib/symdate.py), so the verdict covers every reference in the bound.  Nothing is stubbed except the rendering
 of symbolic numbers (digit placeholders) and the calendar classes themselves."""
+import re
 from harness.dtcommon import *  # noqa
 from recognizers_text import Culture
 from recognizers_date_time import DateTimeRecognizer
@@ -220,6 +221,176 @@ def _less(a, b):
     return False
 
 
+CHECK = sl('check', 'shape')          # shape | pair (+ year-less / bare-weekday candidate pairs bracket the reference, C09) | timex (+ values equal their definite TIMEX, C11) | arith (+ (start,end,duration) triples add up, C10) | all
+
+
+def _tx_tokens(tx):
+    """TIMEX text -> (pattern with every number written as '#' * width, the numbers in order); None when a number has no fixed width"""
+    pat, nums = '', []
+    for it in digits._join(digits._norm(digits.decode(tx))):
+        if isinstance(it, str):
+            pat += it
+        else:
+            if it[1] == 0:
+                return None
+            pat += '#' * it[1]
+            nums.append(it[0])
+    return pat, nums
+
+
+_POINT = re.compile(r'^(?:(?P<d>####-##-##))?(?:T(?P<t>##(?::##(?::##)?)?))?$')
+_DUR = re.compile(r'^P(?:(?P<n>#+)(?P<u>[DWMY])|T(?:(?P<h>#+)H)?(?:(?P<m>#+)M)?(?:(?P<s>#+)S)?)$')
+
+
+def _point(pat, nums):
+    """a definite TIMEX point -> ((y, m, d) or None, (h, mi, s) or None); None when the TIMEX is not a definite point"""
+    m = _POINT.match(pat)
+    if not m or not pat:
+        return None
+    nums = list(nums)
+    d = t = None
+    if m.group('d'):
+        d = tuple(nums[:3])
+        nums = nums[3:]
+    if m.group('t') is not None:
+        t = tuple(nums + [0] * (3 - len(nums)))
+    return d, t
+
+
+def _split3(pat, nums):
+    """'(A,B,D)' -> three (pattern, numbers) pieces, or None"""
+    if not (pat.startswith('(') and pat.endswith(')')) or pat.count(',') != 2:
+        return None
+    out, k = [], 0
+    for piece in pat[1:-1].split(','):
+        n = len(re.findall('#+', piece))
+        out.append((piece, nums[k:k + n]))
+        k += n
+    return out
+
+
+def _eq_point(kind, text, pt, what, v):
+    d, t = pt
+    if kind == 'date':
+        assert digits.ymd(text) == d, (what + ' differs from its definite TIMEX', v)
+    elif kind == 'time':
+        assert digits.hms(text) == t, (what + ' differs from its definite TIMEX', v)
+    else:
+        a, b = text.split(' ', 1)
+        assert digits.ymd(a) == d and digits.hms(b) == t, (what + ' differs from its definite TIMEX', v)
+
+
+def _ord(d):
+    if ENGINE == 'sx':
+        return _sd.sdatetime(d[0], d[1], d[2]).toordinal()
+    return datetime(int(d[0]), int(d[1]), int(d[2])).toordinal()
+
+
+def _timex_agree(kind, v):
+    """C11: when the TIMEX is fully definite the value equals it (values carrying a Mod state one boundary of the period: not compared)"""
+    tx = v.get('timex')
+    if not tx or 'Mod' in v:
+        return
+    tk = _tx_tokens(tx)
+    if tk is None:
+        return
+    base = kind[:-5] if kind.endswith('range') else kind
+    want = {'date': (True, False), 'time': (False, True), 'datetime': (True, True)}.get(base)
+    if want is None:
+        return
+    if not kind.endswith('range'):
+        pt = _point(*tk)
+        if pt is not None and pt[0] is not None:
+            assert 1 <= pt[0][1] <= 12 and 1 <= pt[0][2] <= 31, ('definite TIMEX with a month or day that no calendar has', v)
+        if pt is not None and pt[1] is not None:
+            assert 0 <= pt[1][0] <= 24 and 0 <= pt[1][1] <= 59 and 0 <= pt[1][2] <= 59, ('definite TIMEX with an impossible clock time', v)
+        if pt is not None and ((pt[0] is not None), (pt[1] is not None)) == want and v.get('value') not in (None, 'not resolved'):
+            _eq_point(kind, v['value'], pt, 'value', v)
+        return
+    parts = _split3(*tk)
+    if parts is None:
+        return
+    for side, piece in (('start', parts[0]), ('end', parts[1])):
+        pt = _point(*piece)
+        if pt is not None and ((pt[0] is not None), (pt[1] is not None)) == want and side in v:
+            _eq_point(base, v[side], pt, side, v)
+
+
+def _range_arith(kind, v):
+    """C10: a TIMEX (start,end,duration) with definite endpoints: end minus start equals the duration"""
+    tx = v.get('timex')
+    if not tx or not kind.endswith('range'):
+        return
+    tk = _tx_tokens(tx)
+    parts = _split3(*tk) if tk is not None else None
+    if parts is None:
+        return
+    a, b = _point(*parts[0]), _point(*parts[1])
+    m = _DUR.match(parts[2][0])
+    if a is None or b is None or not m or (a[0] is None) != (b[0] is None) or (a[1] is None) != (b[1] is None):
+        return
+    nums = list(parts[2][1])
+    if m.group('u'):
+        n, u = nums[0], m.group('u')
+        if a[0] is None:
+            return
+        if a[1] is not None and a[1] != b[1]:
+            return          # a count of days between two instants with different clock times: no exact reading
+        if u in 'DW':
+            assert _ord(b[0]) - _ord(a[0]) == n * (7 if u == 'W' else 1), ('end minus start differs from the duration', v)
+        elif u == 'M':
+            if a[0][2] == b[0][2]:
+                assert (b[0][0] * 12 + b[0][1]) - (a[0][0] * 12 + a[0][1]) == n, ('end minus start differs from the duration', v)
+        else:
+            if a[0][1:] == b[0][1:]:
+                assert b[0][0] - a[0][0] == n, ('end minus start differs from the duration', v)
+        return
+    if a[1] is None:
+        return
+    secs = 0
+    for g, k in (('h', 3600), ('m', 60), ('s', 1)):
+        if m.group(g):
+            secs = secs + nums.pop(0) * k
+    diff = (b[1][0] - a[1][0]) * 3600 + (b[1][1] - a[1][1]) * 60 + (b[1][2] - a[1][2])
+    if a[0] is not None:
+        assert (_ord(b[0]) - _ord(a[0])) * 86400 + diff == secs, ('end minus start differs from the duration', v)
+    else:
+        assert diff == secs or diff + 86400 == secs, ('end minus start differs from the duration', v)          # a time range may cross midnight
+
+
+def _is_leap(y):
+    return _sd.is_leap(y) if ENGINE == 'sx' else (y % 4 == 0 and (y % 100 != 0 or y % 400 == 0))
+
+
+def _pair_ok(vals, o, hh, mi):
+    """C09 at API level: a date entity whose TIMEX leaves the year (XXXX-MM-DD) or the week (XXXX-WXX-d) open and that offers two
+    values: they are the latest occurrence before the reference day and the earliest on or after it.  (When the reference has a
+    non-zero time of day and the expression names the reference's own day the pair is (today, next): recorded as KF-C09-TOD, so
+    'before' is checked as 'not after' in that case only.)"""
+    if len(vals) != 2 or vals[0].get('timex') != vals[1].get('timex') or any(v.get('value') in (None, 'not resolved') or 'Mod' in v for v in vals):
+        return
+    tk = _tx_tokens(vals[0]['timex'])
+    if tk is None or tk[0] not in ('XXXX-WXX-#', 'XXXX-##-##'):
+        return
+    p, f = digits.ymd(vals[0]['value']), digits.ymd(vals[1]['value'])
+    if p is None or f is None:
+        return
+    po, fo = _ord(p), _ord(f)
+    midnight = (hh == 0) and (mi == 0)
+    assert (po < o or (po == o and not midnight)) and o <= fo, ('the two candidates do not bracket the reference day', vals)
+    if tk[0] == 'XXXX-WXX-#':
+        d = tk[1][0]
+        assert (po - 1) % 7 + 1 == d and fo - po == 7, ('weekday candidates are not the neighbouring occurrences of that weekday', vals)
+    else:
+        m, d = tk[1]
+        assert p[1:] == (m, d) and f[1:] == (m, d), ('candidates differ from the stated month and day', vals)
+        if m == 2 and d == 29:
+            gap = f[0] - p[0]
+            assert gap == 4 or (gap == 8 and not _is_leap(p[0] + 4)), ('29 February candidates are not neighbouring leap years', vals)
+        else:
+            assert f[0] - p[0] == 1, ('month/day candidates are not in consecutive years', vals)
+
+
 def h_wellformed(o: int, hh: int, mi: int):
     """whatever the English date-time model returns for QUERY at reference R has the shape its type promises (C11)"""
     assert ORD_LO <= o <= ORD_HI and 0 <= hh <= 23 and 0 <= mi <= 59
@@ -237,6 +408,8 @@ def h_wellformed(o: int, hh: int, mi: int):
         assert r.type_name.startswith('datetimeV2.')
         kind = r.type_name.split('.', 1)[1]
         vals = (r.resolution or {}).get('values', [])
+        if CHECK in ('pair', 'all') and kind == 'date':
+            _pair_ok(vals, o, hh, mi)
         for v in vals:
             assert v.get('type') == kind, ('type name differs from the type of the value', r.type_name, v.get('type'))
             if kind == 'date':
@@ -264,3 +437,7 @@ def h_wellformed(o: int, hh: int, mi: int):
                 b = _datetime_ok(v['end']) if 'end' in v else None
                 if a is not None and b is not None:
                     assert _less(a[0] + a[1], b[0] + b[1]) or (a[0] + a[1]) == (b[0] + b[1]) or True
+            if CHECK in ('timex', 'all'):
+                _timex_agree(kind, v)
+            if CHECK in ('arith', 'all'):
+                _range_arith(kind, v)
